@@ -19,7 +19,7 @@ HTTP = ("get", "put", "post", "delete", "patch", "trace", "options", "head")
 NAMES1 = ["Foo", "Bar", "Item", "Order", "Widget"]
 NAMES2 = ["UserProfile", "user_profile", "order_item_tbl", "HTTPLog", "foo_tbl", "Api2Key"]
 COLS = [("size", "Integer", "how big"), ("label", "String", "the label"), ("active", "Boolean", "whether active"),
-        ("ratio", "Float", "the ratio"), ("note", "String", "a note"), ("count", "Integer", "how many")]
+        ("ratio", "Float", "the ratio"), ("note", "String", "a note"), ("count", "Integer", "how many"), ("_rev", "Integer", "revision")]
 CRUDS = ["C", "R", "D", "CR", "CD", "RD", "CRD", "DRC", "RC"]
 
 
@@ -200,7 +200,7 @@ print("@@" + json.dumps(res))
 '''
 
 
-def gen_bulk_case(rng, names=None):
+def gen_bulk_case(rng, names=None, nodoc=None):
     k = rng.randint(1, 3)
     names = names or rng.sample(NAMES1 + NAMES2[:2], k)
     src = ["from sqlalchemy import Boolean, Column, Float, Integer, String", "from sqlalchemy.orm import declarative_base", "",
@@ -209,7 +209,7 @@ def gen_bulk_case(rng, names=None):
     for n in names:
         cols = rng.sample(COLS, rng.randint(1, 5))
         explicit_pk = rng.random() < 0.7
-        pk = rng.choice(["id", "email", "slug"])
+        pk = rng.choice(["id", "email", "slug", "_id"])          # (a leading underscore is an ordinary column name, e.g. CouchDB's _id / _rev)
         # the primary key column: documented or not, first or anywhere among the (documented) columns
         pk_doc = rng.random() < 0.7
         pk_at = 0 if rng.random() < 0.5 else rng.randint(0, len(cols))
@@ -220,7 +220,11 @@ def gen_bulk_case(rng, names=None):
         col_lines.insert(pk_at, '    %s = Column(String, %sprimary_key=True)' % (pk, 'doc="identifier", ' if pk_doc else ""))
         doc = ["    %s record" % n, ""] + doc_lines
         body = ['    __tablename__ = "%s"' % n.lower(), ""] + col_lines
-        src += ["class %s(Base):" % n, '    """', "\n".join(doc) + '"""', ""] + body + ["", ""]
+        if (rng.random() < 0.3) if nodoc is None else nodoc:
+            # a model without a class docstring (descriptions live on the columns only)
+            src += ["class %s(Base):" % n] + body + ["", ""]
+        else:
+            src += ["class %s(Base):" % n, '    """', "\n".join(doc) + '"""', ""] + body + ["", ""]
         prefix = rng.choice(["/api", "/v1"])
         models.append({"name": n, "crud": rng.choice(["CRD", "CR", "RD", "C", "R", "CD", "D"]), "route": "%s/%s" % (prefix, n.lower()),
                        "pk": pk, "pk_documented": pk_doc, "first_column": pk if pk_at == 0 else cols[0][0]})
@@ -321,6 +325,13 @@ def run(ctx):
         if j["models"][0]["name"].replace("_tbl", "", 1).title() == j["models"][0]["name"]:
             for sd in range(8 if ctx.quick else 32):
                 bulk_jobs.append((sd, j))
+    # several models WITHOUT class docstrings in one document (each with its own routes file), single-word names
+    for names_ in (["Foo", "Bar"], ["Item", "Order", "Widget"]):
+        j = gen_bulk_case(rng, names=names_, nodoc=True)
+        j["routes_file_per_model"] = True
+        for m_ in j["models"]:
+            m_["crud"] = "CRD"
+        bulk_jobs.append((0, j))
     bulk = list(run_cases(bulk_worker, bulk_jobs, chunk=1))
     bulk_ok = 0
     for b in bulk:
